@@ -108,6 +108,21 @@ func (s *V2SessionlessTransport) newV2Session(ctx context.Context, opts *V2Sessi
 	if err != nil {
 		return nil, err
 	}
+	// we proposed exactly one algorithm of each kind, so a conforming BMC can
+	// only confirm them; adopting anything else would let the response (which
+	// is not authenticated) silently downgrade or change the session's security
+	if openSessionRsp.AuthenticationPayload.Algorithm != cipherSuite.AuthenticationAlgorithm ||
+		openSessionRsp.IntegrityPayload.Algorithm != cipherSuite.IntegrityAlgorithm ||
+		openSessionRsp.ConfidentialityPayload.Algorithm != cipherSuite.ConfidentialityAlgorithm {
+		return nil, fmt.Errorf("managed system selected algorithms %v, %v, %v; "+
+			"proposed %v, %v, %v",
+			openSessionRsp.AuthenticationPayload.Algorithm,
+			openSessionRsp.IntegrityPayload.Algorithm,
+			openSessionRsp.ConfidentialityPayload.Algorithm,
+			cipherSuite.AuthenticationAlgorithm,
+			cipherSuite.IntegrityAlgorithm,
+			cipherSuite.ConfidentialityAlgorithm)
+	}
 
 	// RAKP Message 1, 2
 	remoteConsoleRandom := [16]byte{}
